@@ -64,11 +64,13 @@ def plain_config(job, repo, out_dir, chunk_dir, key):
             "head_configs": heads,
         },
         "trainer_config": {
-            "train_data_loader": {"batch_size": 1, "shuffle": False, "num_workers": 0},
-            "val_data_loader": {"batch_size": 1, "num_workers": 0},
+            # feed "derived": steps_per_epoch left unset (schema default) and a batch larger than the label set - the trainer
+            # derives the epoch length itself (seed C19_r8)
+            "train_data_loader": {"batch_size": (4 if job.get("feed") == "derived" else 1), "shuffle": False, "num_workers": 0},
+            "val_data_loader": {"batch_size": (4 if job.get("feed") == "derived" else 1), "num_workers": 0},
             "model_ckpt": {"save_top_k": 1, "save_last": True},
             "early_stopping": {"stop_training_on_plateau": False, "min_delta": 1e-08, "patience": 20},
-            "trainer_devices": 1, "trainer_accelerator": "cpu", "enable_progress_bar": False, "steps_per_epoch": 1,
+            "trainer_devices": 1, "trainer_accelerator": "cpu", "enable_progress_bar": False, "steps_per_epoch": (None if job.get("feed") == "derived" else 1),
             "max_epochs": 1, "seed": 1000, "use_wandb": job["wandb"], "save_ckpt": job["ckpt"], "save_ckpt_path": out_dir,
             "resume_ckpt_path": None,
             "wandb": {"entity": None, "project": "verif", "name": "run", "wandb_mode": "offline", "api_key": key,
